@@ -30,6 +30,7 @@ Res(f, cur, comps, followLast, fuel) ==
     ELSE IF comps = <<>> THEN cur
     ELSE LET c == Head(comps)  rest == Tail(comps) IN
          IF c = ".." THEN Res(f, Parent(cur), rest, followLast, fuel - 1)
+         ELSE IF c = "." THEN Res(f, cur, rest, followLast, fuel - 1)
          ELSE LET p == Append(cur, c)  n == NodeAt(f, p) IN
               IF n.kind = "link" /\ (rest # <<>> \/ followLast)
               THEN Res(f, IF n.target.abs THEN <<>> ELSE cur, n.target.comps \o rest, followLast, fuel - 1)
@@ -62,17 +63,19 @@ MakeLink(f, p, t) ==
 (* package entries: [comps, kind in file/dir/link/other, data, target] ;    *)
 (* comps is the path as stored (relative to "/"), possibly containing ".."  *)
 HasDotDot(e) == \E i \in 1..Len(e.comps) : e.comps[i] = ".."
+NoDots(cs) == SelectSeq(cs, LAMBDA c : c # ".")
 \* some existing proper ancestor of Root ++ comps (or the path itself, for directories) is a link
 ThroughLink(f, e) ==
-    \E k \in 1..Len(e.comps) :
-        /\ (k < Len(e.comps) \/ e.kind = "dir")
-        /\ NodeAt(f, Root \o SubSeq(e.comps, 1, k)).kind = "link"
+    LET cs == NoDots(e.comps) IN
+    \E k \in 1..Len(cs) :
+        /\ (k < Len(cs) \/ e.kind = "dir")
+        /\ NodeAt(f, Root \o SubSeq(cs, 1, k)).kind = "link"
 
 Err(f) == [ok |-> FALSE, fs |-> f]
 Step(design, f, e) ==
     IF e.kind = "other" THEN Err(f)
     ELSE IF design = "safe" /\ (HasDotDot(e) \/ ThroughLink(f, e)) THEN Err(f)
-    ELSE LET p == Root \o e.comps
+    ELSE LET p == Root \o (IF design = "safe" THEN NoDots(e.comps) ELSE e.comps)
              pre == MkdirP(f, Parent(p), 1)          \* parent directories are created first
          IN IF ~pre.ok THEN pre
             ELSE IF e.kind = "dir" THEN MkdirP(pre.fs, p, 1)
